@@ -959,3 +959,14 @@ M("C15-benign-include-null-infile-nested", "C15", "src/cppparser/cppPreprocessor
   "      if (_infile == nullptr || _infile->_parent == nullptr) {\n        // If we're currently processing a top-level file, record the include\n        // directive.  We don't need to record includes from included files.\n        _angle_includes.insert(filename);",
   "      if (!_infile || !_infile->_parent) {\n        // If we're currently processing a top-level file, record the include\n        // directive.  We don't need to record includes from included files.\n        _angle_includes.insert(filename);",
   benign=True)
+
+M("C15-template-args-loop-ignores-eof", "C15", "src/cppparser/cppPreprocessor.cxx",
+  "    if (_state == S_eof) {\n      // We ran out of input before finding the closing angle bracket; a\n      // parameter pack would otherwise keep us here forever.\n      break;\n    }\n\n", "",
+  expect="R15.11|CPPPreprocessor::nested_parse_template_instantiation")
+M("C15-skip-to-end-nested-ignores-eof", "C15", "src/cppparser/cppPreprocessor.cxx",
+  "  while (_state != S_end_nested && _state != S_eof) {\n    get_next_token();\n  }\n\n#ifdef CPP_VERBOSE_LEX\n  indent(cerr, get_file_depth() * 2)\n    << \"Done skipping tokens.\\n\";\n#endif\n}\n\n/**\n * This is an error-recovery function, called after returning from a nested\n * parse.  If we haven't yet consumed the closing angle bracket",
+  "  while (_state != S_end_nested) {\n    get_next_token();\n  }\n\n#ifdef CPP_VERBOSE_LEX\n  indent(cerr, get_file_depth() * 2)\n    << \"Done skipping tokens.\\n\";\n#endif\n}\n\n/**\n * This is an error-recovery function, called after returning from a nested\n * parse.  If we haven't yet consumed the closing angle bracket",
+  expect="R15.11|CPPPreprocessor::skip_to_end_nested")
+M("C15-benign-template-args-eof-test-in-condition", "C15", "src/cppparser/cppPreprocessor.cxx",
+  "       pi != formal_params._parameters.end() && _parsing_template_params;) {", "       pi != formal_params._parameters.end() && _parsing_template_params && _state != S_eof;) {",
+  benign=True)
